@@ -30,6 +30,9 @@ CLAIMED = {
  "C15": dict(level="model_checking", ref="DESIGN.md 5 (C15)",
    text="Exhaustive enumeration of the formatter's input space up to a length bound (all strings over the 9-symbol alphabet; all properly nested strings to a larger bound; macro-letter strings straddling the 32-character look-ahead; every description the crate produces for Polkadot and D-arms), each run through the real formatter and compared with the whitespace-erasure oracle and an independent indentation reader.",
    note="The 'randomly for longer strings' clause is not sampled (sampling is a different family); longer strings are covered by the structured families only. Termination = completion inside the wall budget."),
+ "C16": dict(level="model_checking", ref="DESIGN.md 5 (C16)",
+   text="Breadth-first search over all histories of public builder calls (52-call alphabet incl. one invalid argument per documented error kind) up to depth 3 (thorough 4), states = abstract settings; every transition replays the history on fresh real objects and compares: returned error kind, 'rejected => rules unchanged', complete observable content (getters, iter, contains) against the map/set accumulator model, and the derives/attributes actually emitted on a probe registry (parent/child/unrelated) under all map-iteration schedules with <= 1 deviating point.",
+   note="Specific vs recursive registrations are only distinguishable through generation on the probe registry."),
 }
 WIP = "check not built yet in this session (planned design: DESIGN.md section 5)"
 props=[json.loads(l) for l in open('/verif/properties.jsonl')]
